@@ -639,8 +639,13 @@ func (hs *serverHandshakeStateTLS13) doHelloRetryRequest(selectedGroup CurveID) 
 		supportedVersion:  hs.hello.supportedVersion,
 		selectedGroup:     selectedGroup,
 	}
+	cookieOnly := false
 	if byz := c.config.Byz; byz != nil && len(byz.HRRCookie) > 0 {
 		helloRetryRequest.cookie = byz.HRRCookie
+		if byz.HRRCookieOnly {
+			cookieOnly = true
+			helloRetryRequest.selectedGroup = 0
+		}
 	}
 	if byz := c.config.Byz; byz != nil && byz.AfterHRR {
 		helloRetryRequest.sessionId = hs.clientHello.sessionId
@@ -734,15 +739,37 @@ func (hs *serverHandshakeStateTLS13) doHelloRetryRequest(selectedGroup CurveID) 
 			hs.clientHello.cookie = clientHello.cookie
 		}
 	}
-	if len(clientHello.keyShares) != 1 {
-		c.sendAlert(alertIllegalParameter)
-		return nil, errors.New("tls: client didn't send one key share in second ClientHello")
-	}
-	ks := &clientHello.keyShares[0]
+	var ks *keyShare
+	if cookieOnly {
+		// no key_share in the HelloRetryRequest: the shares must be those of the first hello
+		if len(clientHello.keyShares) != len(hs.clientHello.keyShares) {
+			c.sendAlert(alertIllegalParameter)
+			return nil, errors.New("tls: client changed its key shares after a cookie-only HelloRetryRequest")
+		}
+		for i := range clientHello.keyShares {
+			if clientHello.keyShares[i].group != hs.clientHello.keyShares[i].group || !bytes.Equal(clientHello.keyShares[i].data, hs.clientHello.keyShares[i].data) {
+				c.sendAlert(alertIllegalParameter)
+				return nil, errors.New("tls: client changed its key shares after a cookie-only HelloRetryRequest")
+			}
+			if clientHello.keyShares[i].group == selectedGroup && ks == nil {
+				ks = &clientHello.keyShares[i]
+			}
+		}
+		if ks == nil {
+			c.sendAlert(alertIllegalParameter)
+			return nil, errors.New("tls: second ClientHello lacks the share of the selected group")
+		}
+	} else {
+		if len(clientHello.keyShares) != 1 {
+			c.sendAlert(alertIllegalParameter)
+			return nil, errors.New("tls: client didn't send one key share in second ClientHello")
+		}
+		ks = &clientHello.keyShares[0]
 
-	if ks.group != selectedGroup {
-		c.sendAlert(alertIllegalParameter)
-		return nil, errors.New("tls: client sent unexpected key share in second ClientHello")
+		if ks.group != selectedGroup {
+			c.sendAlert(alertIllegalParameter)
+			return nil, errors.New("tls: client sent unexpected key share in second ClientHello")
+		}
 	}
 
 	if clientHello.earlyData {
